@@ -138,6 +138,11 @@ def step_replay(I, vc, v):
     diffs = []
     if resp["result"] != pred_kind:
         diffs.append(f"result: native {resp['result']} ({resp.get('error', '')[:200]}) vs predicted {pred_kind}")
+    elif pred_kind == "ok" and rp["entry"] == "query":
+        if rp.get("result_ty") and rp.get("result") is not None:
+            pj = serial.to_json(prog, conc.value(rp["result"]), rp["result_ty"], crate)
+            nj = (resp.get("response") or {}).get("json")
+            if _strip_err(pj) != _strip_err(nj): diffs.append(f"query result: native {json.dumps(nj)[:500]} vs predicted {json.dumps(pj)[:500]}")
     elif pred_kind == "ok":
         post = {k.hex(): val for k, val in serial.storage_kv(prog, conc, rp["post_storage"], crate).items()}
         native = {k: json.loads(bytes.fromhex(val).decode()) for k, val in resp["storage"]}
@@ -155,6 +160,10 @@ def step_replay(I, vc, v):
            "reproduced": not diffs, "diffs": diffs[:10]}
     if diffs: out["why"] = "native run disagrees with the interpreter's prediction (encoder fault or spurious pre-state)"
     return out
+
+
+def _strip_err(x):
+    return x
 
 
 def norm_msgs(x):
